@@ -294,7 +294,7 @@ func runsFor(prop, tier string) []run {
 		// two leave/re-add cycles leave automatic snapshots between the base and the checkpoint: real cleaner loop, tick by tick
 		cyc := []string{"Reg:0", "Reg:1", "Start:0", "W:0", "Add:1", "Sync:1", "Verify:1", "W:0", "Remove:1", "Restart:1", "Add:1", "Sync:1", "Verify:1", "W:0",
 			"Remove:1", "Restart:1", "Add:1", "Sync:1", "Verify:1", "W:0", "Cleaners"}
-		clean := eb.Cfg{RF: 2, N: 2, Alphabet: []string{"Tick", "TickF", "TickK", "W0", "DelSnap", "Snap"}, Oracles: []string{"c11", "c02", "c18"}, Drain: true, Real: true,
+		clean := eb.Cfg{RF: 2, N: 2, Alphabet: []string{"Tick", "TickF", "TickK", "TickS", "W0", "DelSnap", "Snap"}, Oracles: []string{"c11", "c02", "c18"}, Drain: true, Real: true,
 			MaxWrites: 5, MaxSnaps: 1, MaxFaults: 2, InitOps: cyc}
 		// a user snapshot exists and the second replica is being rebuilt (WO): deleteSnapshot must be refused until the
 		// verify promoted it and a checkpoint is recorded
